@@ -29,6 +29,7 @@
  * (always failing) canary contains arrays of 2^40+ bytes */
 #define CANARY_SMALL(cond) do { if (cond) { CANARY(); } } while (0)
 #define CHK_RI(z, what) CHECK(BUF_RI(&z), what ": representation invariant size <= alloc, data valid for alloc bytes")
+#define CHK_KEEP_IF(c, z, what) CHECK(!(c) || !(in_j < in_size) || z.data[in_j] == g_bold, what ": bytes already in the buffer are kept")
 #define CHK_KEEP(z, what) CHECK(!(in_j < in_size) || z.data[in_j] == g_bold, what ": bytes already in the buffer are kept")
 
 /* ------------------------------------------------------------ slice readers */
@@ -114,18 +115,19 @@ void h_slice_write(void) {
   CANARY_SMALL(in_xn <= 64);
 }
 
-#define H_SLICE_EXPORT(fname, cap, srccap) void fname(void) { \
+#define H_SLICE_EXPORT(fname, cap, srccap, content) void fname(void) { \
+  g_bcontent = (content); \
   MK_BUF_CAP(z, cap); MK_SRC(x, srccap); \
   ldb_slice_export(&z, &x); \
   CHK_RI(z, "slice_export"); \
   CHECK(z.size == in_size + V32_SIZE(in_xn) + in_xn, "slice_export: size grows by prefix + payload"); \
-  CHK_KEEP(z, "slice_export"); \
-  CHECK(LPS_PREFIX_IS(z.data + in_size, in_xn), "slice_export: LEB128(length) lands at the old end"); \
-  CHECK(!(in_k < in_xn) || z.data[in_size + V32_SIZE(in_xn) + in_k] == src[in_k], "slice_export: payload follows the prefix"); \
+  CHK_KEEP_IF(g_bcontent, z, "slice_export"); \
+  CHECK(!g_bcontent || (LPS_PREFIX_IS(z.data + in_size, in_xn)), "slice_export: LEB128(length) lands at the old end"); \
+  CHECK(!g_bcontent || (!(in_k < in_xn) || z.data[in_size + V32_SIZE(in_xn) + in_k] == src[in_k]), "slice_export: payload follows the prefix"); \
   CANARY_SMALL(in_alloc <= 64 && in_xn <= 64); \
 }
-H_SLICE_EXPORT(h_slice_export, VERIF_OBJ_MAX, VERIF_U32_MAX)
-H_SLICE_EXPORT(h_slice_export_b, 4096, 4096)
+H_SLICE_EXPORT(h_slice_export, VERIF_OBJ_MAX, VERIF_U32_MAX, 0)
+H_SLICE_EXPORT(h_slice_export_b, BUF_CONTENT_MAX, BUF_CONTENT_MAX, 1)
 
 /* ------------------------------------------------------------------ buffer */
 
@@ -282,38 +284,41 @@ void h_buffer_fixed32(void) {
   CHK_KEEP(z, "buffer_fixed32");
   CANARY_SMALL(in_alloc <= 64);
 }
-#define H_BUFFER_FIXED64(fname, cap, srccap) void fname(void) { \
+#define H_BUFFER_FIXED64(fname, cap, srccap, content) void fname(void) { \
+  g_bcontent = (content); \
   MK_BUF_CAP(z, cap); IN_U64(in_x); \
   ldb_buffer_fixed64(&z, in_x); \
   CHK_RI(z, "buffer_fixed64"); \
-  CHECK(z.size == in_size + 8 && IS_LE64(z.data + in_size, in_x), "buffer_fixed64: 8 little-endian bytes at the old end"); \
-  CHK_KEEP(z, "buffer_fixed64"); \
+  CHECK(z.size == in_size + 8 && (!g_bcontent || IS_LE64(z.data + in_size, in_x)), "buffer_fixed64: 8 little-endian bytes at the old end"); \
+  CHK_KEEP_IF(g_bcontent, z, "buffer_fixed64"); \
   CANARY_SMALL(in_alloc <= 64); \
 }
-H_BUFFER_FIXED64(h_buffer_fixed64, VERIF_OBJ_MAX, VERIF_U32_MAX)
-H_BUFFER_FIXED64(h_buffer_fixed64_b, 4096, 4096)
-#define H_BUFFER_VARINT32(fname, cap, srccap) void fname(void) { \
+H_BUFFER_FIXED64(h_buffer_fixed64, VERIF_OBJ_MAX, VERIF_U32_MAX, 0)
+H_BUFFER_FIXED64(h_buffer_fixed64_b, BUF_CONTENT_MAX, BUF_CONTENT_MAX, 1)
+#define H_BUFFER_VARINT32(fname, cap, srccap, content) void fname(void) { \
+  g_bcontent = (content); \
   MK_BUF_CAP(z, cap); IN_U32(in_x); \
   ldb_buffer_varint32(&z, in_x); \
   CHK_RI(z, "buffer_varint32"); \
   CHECK(z.size == in_size + V32_SIZE(in_x), "buffer_varint32: size grows by the LEB128 length"); \
-  CHECK(V_WELLFORMED(z.data + in_size, V32_SIZE(in_x)) && V32_VAL(z.data + in_size, V32_SIZE(in_x)) == in_x, "buffer_varint32: LEB128(x) at the old end"); \
-  CHK_KEEP(z, "buffer_varint32"); \
+  CHECK(!g_bcontent || (V_WELLFORMED(z.data + in_size, V32_SIZE(in_x)) && V32_VAL(z.data + in_size, V32_SIZE(in_x)) == in_x), "buffer_varint32: LEB128(x) at the old end"); \
+  CHK_KEEP_IF(g_bcontent, z, "buffer_varint32"); \
   CANARY_SMALL(in_alloc <= 64); \
 }
-H_BUFFER_VARINT32(h_buffer_varint32, VERIF_OBJ_MAX, VERIF_U32_MAX)
-H_BUFFER_VARINT32(h_buffer_varint32_b, 4096, 4096)
-#define H_BUFFER_VARINT64(fname, cap, srccap) void fname(void) { \
+H_BUFFER_VARINT32(h_buffer_varint32, VERIF_OBJ_MAX, VERIF_U32_MAX, 0)
+H_BUFFER_VARINT32(h_buffer_varint32_b, BUF_CONTENT_MAX, BUF_CONTENT_MAX, 1)
+#define H_BUFFER_VARINT64(fname, cap, srccap, content) void fname(void) { \
+  g_bcontent = (content); \
   MK_BUF_CAP(z, cap); IN_U64(in_x); \
   ldb_buffer_varint64(&z, in_x); \
   CHK_RI(z, "buffer_varint64"); \
   CHECK(z.size == in_size + V64_SIZE(in_x), "buffer_varint64: size grows by the LEB128 length"); \
-  CHECK(V_WELLFORMED(z.data + in_size, V64_SIZE(in_x)) && V64_VAL(z.data + in_size, V64_SIZE(in_x)) == in_x, "buffer_varint64: LEB128(x) at the old end"); \
-  CHK_KEEP(z, "buffer_varint64"); \
+  CHECK(!g_bcontent || (V_WELLFORMED(z.data + in_size, V64_SIZE(in_x)) && V64_VAL(z.data + in_size, V64_SIZE(in_x)) == in_x), "buffer_varint64: LEB128(x) at the old end"); \
+  CHK_KEEP_IF(g_bcontent, z, "buffer_varint64"); \
   CANARY_SMALL(in_alloc <= 64); \
 }
-H_BUFFER_VARINT64(h_buffer_varint64, VERIF_OBJ_MAX, VERIF_U32_MAX)
-H_BUFFER_VARINT64(h_buffer_varint64_b, 4096, 4096)
+H_BUFFER_VARINT64(h_buffer_varint64, VERIF_OBJ_MAX, VERIF_U32_MAX, 0)
+H_BUFFER_VARINT64(h_buffer_varint64_b, BUF_CONTENT_MAX, BUF_CONTENT_MAX, 1)
 
 void h_buffer_size(void) {
   IN_SIZE(in_xn); ldb_buffer_t x; size_t r;
@@ -336,18 +341,19 @@ void h_buffer_write(void) {
   CANARY_SMALL(in_xn <= 64);
 }
 
-#define H_BUFFER_EXPORT(fname, cap, srccap) void fname(void) { \
+#define H_BUFFER_EXPORT(fname, cap, srccap, content) void fname(void) { \
+  g_bcontent = (content); \
   MK_BUF_CAP(z, cap); MK_SRC(x, srccap); \
   ldb_buffer_export(&z, &x); \
   CHK_RI(z, "buffer_export"); \
   CHECK(z.size == in_size + V32_SIZE(in_xn) + in_xn, "buffer_export: size grows by prefix + payload"); \
-  CHK_KEEP(z, "buffer_export"); \
-  CHECK(LPS_PREFIX_IS(z.data + in_size, in_xn), "buffer_export: LEB128(length) lands at the old end"); \
-  CHECK(!(in_k < in_xn) || z.data[in_size + V32_SIZE(in_xn) + in_k] == src[in_k], "buffer_export: payload follows the prefix"); \
+  CHK_KEEP_IF(g_bcontent, z, "buffer_export"); \
+  CHECK(!g_bcontent || (LPS_PREFIX_IS(z.data + in_size, in_xn)), "buffer_export: LEB128(length) lands at the old end"); \
+  CHECK(!g_bcontent || (!(in_k < in_xn) || z.data[in_size + V32_SIZE(in_xn) + in_k] == src[in_k]), "buffer_export: payload follows the prefix"); \
   CANARY_SMALL(in_alloc <= 64 && in_xn <= 64); \
 }
-H_BUFFER_EXPORT(h_buffer_export, VERIF_OBJ_MAX, VERIF_U32_MAX)
-H_BUFFER_EXPORT(h_buffer_export_b, 4096, 4096)
+H_BUFFER_EXPORT(h_buffer_export, VERIF_OBJ_MAX, VERIF_U32_MAX, 0)
+H_BUFFER_EXPORT(h_buffer_export_b, BUF_CONTENT_MAX, BUF_CONTENT_MAX, 1)
 
 void h_buffer_read(void) {
   MK_BUF(z); IN_SIZE(in_n); IN_BUF(buf, in_n); SNAP_BUF(buf, in_n);
